@@ -2,7 +2,7 @@ SPECIFICATION Spec
 CONSTANTS
   Versions <- VersionsAll
   Family = "pdu"
-  FullOffsets <- Off03
-  LiteOffsets <- Off1245
+  FullOffsets <- Off0
+  LiteOffsets <- Off12345
 INVARIANTS TypeOK PExact PIdempotent PCore PIdentity PModule PSanity Emit
 CHECK_DEADLOCK FALSE
